@@ -27,7 +27,7 @@ def make_histories(tier, rng):
     small = [s for s in S if not s.endswith("big.ods")]
     starts = [dict(op="new", src=p, template=k) for k, p in Tm.items()]
     hs = []
-    n_rand = 170 if tier == "quick" else 2400
+    n_rand = 100 if tier == "quick" else 2400
     L = 6 if tier == "quick" else 10
     for st in starts + [dict(op="open", src=s, buf=False) for s in S] + [dict(op="open", src=s, buf=True) for s in small]:
         hs.append(pkglib.gen_history(rng, [st], WEIGHTS, L))
@@ -58,7 +58,7 @@ def make_histories(tier, rng):
                    dict(op="save", packaging="xml", target="buf", pretty=True), dict(op="save", packaging="folder", target="path", pretty=None), dict(op="reopen", r=1)])
     # repeated saves into the SAME target (buffer object, file path, folder) with the document shrinking / growing in between,
     # then reopen: the target must hold the last state only
-    for st in starts + [dict(op="open", src=s, buf=b) for s in small[:: (6 if tier == "quick" else 1)] for b in (False, True)]:
+    for st in starts + [dict(op="open", src=s, buf=b) for s in small[:: (9 if tier == "quick" else 1)] for b in (False, True)]:
         for pk, tg in (("zip", "buf"), ("zip", "path"), ("folder", "path")):
             for first, second in (("grow", "shrink"), ("shrink", "grow"), ("grow", "grow")):
                 h = [dict(st), dict(op=first, r=rng.randrange(1 << 30)), dict(op="save", packaging=pk, target=tg, pretty=False),
